@@ -855,4 +855,18 @@ def replay(ctx, drv, shapes, specials):
             sig = found[0] if found else "none"
             ctx.fail("round trip fails (%s): `%s` %s [shape: %s]" % (kind, text, detail, sig), rp,
                      {"kind": "roundtrip", "shape": sig})
+    # the pinned witnesses of the listed findings are replayed as well (cheap; keeps the evidence meaningful)
+    for f in ctx.known.get("findings", []):
+        if f.get("property") == "C17" and f.get("match", {}).get("kind") == "roundtrip":
+            try:
+                wt = _parser().parseString(f["witness"])[0]
+            except Exception:
+                continue
+            kind, detail, text, _ = real_roundtrip(wt)
+            ctx.case(f["witness"])
+            if kind != "ok":
+                found = shapes.run(wt)
+                ctx.fail("round trip fails (%s): `%s` printed `%s` %s" % (kind, f["witness"], text, detail),
+                         {"kind": "roundtrip", "ast": U.dump(wt), "text": text},
+                         {"kind": "roundtrip", "shape": found[0] if found else "none"})
     return ctx.finish("other")
